@@ -2,14 +2,14 @@ import Ggql.Driver.WalkWire
 namespace Ggql.Driver.C01
 open Ggql Ggql.Walk Ggql.Driver.WalkWire
 
-/-- D11 (hand-set): an unknown operation name falls back to the only operation.
-    (read from ResolveExecutable by the translator).  D12: response keys are overwritten, not merged.  D13: depth limit leaks raw objects. -/
-def d12 : Bool := true
+/- D11 (hand-set): an unknown operation name falls back to the only operation.
+    (read from ResolveExecutable by the translator).  D12 (read from the tail of resolveField): response keys are overwritten, not merged.  D13: depth limit leaks raw objects. -/
 
 /-- alternatives of the family: one flag toggled -/
 def alts (tb : Tables) (c : Case) : List Alt :=
   let cur := cfgCur tb
   [ { flag := "D14", onInCur := cur.condByIdentity, obs := runModel tb c { cur with condByIdentity := !cur.condByIdentity } },
+    { flag := "D12-data", onInCur := cur.dupKeyOverwrites, obs := runModel tb c { cur with dupKeyOverwrites := !cur.dupKeyOverwrites } },
     { flag := "D07", onInCur := !tb.skip.accumulates,
       obs := runModel tb c { cur with skipTable := if tb.skip.accumulates then Skip.tableAssign else Skip.tableOr } },
     { flag := "D19", onInCur := cur.fragPathSegment, obs := runModel tb c { cur with fragPathSegment := !cur.fragPathSegment } },
@@ -40,6 +40,25 @@ partial def collides : List Sel → Bool
     let ks := flatKeys sels
     ks.eraseDups.length != ks.length || sels.any (fun s => match s with | .field _ _ _ _ ss => collides ss | .inline _ _ ss _ => collides ss)
 
+/-- the fields a selection list contributes, fragments opened (whatever their conditions) -/
+partial def flatFields : List Sel → List (String × String × List ArgVal × List Sel)
+  | sels => sels.flatMap (fun s => match s with
+      | .field _ n args _ ss => [(s.key, n, args, ss)]
+      | .inline _ _ ss _ => flatFields ss)
+
+/-- does the request select two *different* fields (another name, other arguments) under one response key, at any
+level of the merged selection?  Such a request is not valid GraphQL (FieldsInSetCanMerge) and what it answers is
+outside C01, which quantifies over valid requests.  (Conditions are ignored: an over-approximation.) -/
+partial def conflicting (sels : List Sel) : Bool :=
+  let fs := flatFields sels
+  let keys := (fs.map (·.1)).eraseDups
+  keys.any (fun k =>
+    match fs.filter (fun f => f.1 == k) with
+    | [] => false
+    | f :: rest =>
+      rest.any (fun g => g.2.1 != f.2.1 || g.2.2.1 != f.2.2.1) ||
+      conflicting ((f :: rest).flatMap (fun g => g.2.2.2)))
+
 def handle (tb : Tables) (c impl : T) : String :=
   match decCase c with
   | none => "bad-op"
@@ -52,11 +71,11 @@ def handle (tb : Tables) (c impl : T) : String :=
       | none, some d, some calls => (d == .atom "none" || d == .node "null" []) && calls == T.list []
       | _, _, _ => false
     if impl == cur then
-      if specOk then "ok"
+      if specOk || cs.ops.any (fun o => conflicting o.sels) then "ok"
       else
         let trig := (alts tb cs).filter (fun a => a.onInCur && !(a.obs == cur))
         let extra : List String :=
-          (if d12 && cs.ops.any (fun o => collides o.sels) then ["D12"] else []) ++
+          (if tb.dupKeyOverwrites && cs.ops.any (fun o => collides o.sels) && !trig.any (fun a => a.flag == "D12-data") then ["D12-data"] else []) ++
           []
         let fl := trig.map (·.flag) ++ extra
         if fl.isEmpty then "unattributed " ++ cur.render else "dev " ++ ",".intercalate fl
@@ -67,6 +86,6 @@ def handle (tb : Tables) (c impl : T) : String :=
       | none => "mismatch " ++ (if specOk then "spec-ok " else "spec-bad ") ++ cur.render
 
 def flags (tb : Tables) : List (String × Bool) :=
-  [("D11", (cfgCur tb).opFallbackAnyName), ("D12", d12), ("D14", (cfgCur tb).condByIdentity)]
+  [("D11", (cfgCur tb).opFallbackAnyName), ("D12-data", tb.dupKeyOverwrites), ("D14", (cfgCur tb).condByIdentity)]
 
 end Ggql.Driver.C01
